@@ -262,8 +262,13 @@ def s_scan(lang, tier, seed, out, prefix="", phrases=None):
                 specs.append(_tk(rng.choice([" ", ",", ".", "-", ";", " . "]), nan=1 if rng.chance(1, 10) else 0, gap=1 if rng.chance(1, 12) else 0))
             text = recase(rng, w)
             specs.append((text, text.lower(), 1 if rng.chance(1, 12) else 0, 1 if rng.chance(1, 8) else 0, 150 if rng.chance(1, 6) else 10))
-        out.write("scan\t%s\t%s\t%s\n" % (code, thr_bits(rng.choice(THRS)), render_tokens(specs)))
+        th = thr_bits(rng.choice(THRS))
+        out.write("scan\t%s\t%s\t%s\n" % (code, th, render_tokens(specs)))
         n += 1
+        if n % 5 == 0:
+            # the same stream through a token type that keeps the trait's DEFAULT hint methods
+            out.write("scanp\t%s\t%s\t%s\n" % (code, th, render_tokens(specs)))
+            n += 1
     return n
 
 
